@@ -216,7 +216,7 @@ Qed.
 
 (* calls that never change the state *)
 Lemma stateless_nat c s :
-  match c with OpenW _ | LockW _ | UnlockW _ | Exists _ | IsDir _ | OpenR _ => True | _ => False end ->
+  match c with OpenW _ | LockW _ | UnlockW _ | Exists _ | IsDir _ | OpenR _ | LExists _ => True | _ => False end ->
   snd (do_call None c s) = s.
 Proof.
   intros H. cbn [do_call]. unfold nat_call.
